@@ -1,3 +1,5 @@
+use std::panic::{catch_unwind, AssertUnwindSafe};
+
 use bgpfu::RpslEvaluator;
 use ip::traits::PrefixSet;
 
@@ -36,19 +38,31 @@ impl Evaluate for Candidate {
             %self.filter_expr,
             "trying to evaluate filter expression"
         );
-        let ranges = evaluator
-            .evaluate(self.filter_expr.clone())
-            .map_err(|err| {
+        // The expression evaluator panics on constructs it does not implement (AS-path regular
+        // expressions, attribute matches). Contain that to this policy: the others must still be
+        // evaluated.
+        let ranges = catch_unwind(AssertUnwindSafe(|| {
+            evaluator.evaluate(self.filter_expr.clone())
+        }))
+        .map_err(|_| {
+            tracing::error!(
+                "evaluation of filter expression {} panicked",
+                self.filter_expr,
+            );
+        })
+        .and_then(|result| {
+            result.map_err(|err| {
                 tracing::error!(
                     "failed to evaluate filter expression {}: {err:#}",
                     self.filter_expr,
                 );
             })
-            .map(|set| {
-                let (ipv4, ipv6) = set.as_partitions();
-                (ipv4.ranges().collect(), ipv6.ranges().collect())
-            })
-            .ok();
+        })
+        .map(|set| {
+            let (ipv4, ipv6) = set.as_partitions();
+            (ipv4.ranges().collect(), ipv6.ranges().collect())
+        })
+        .ok();
         Evaluated {
             filter_expr: self.filter_expr,
             ranges,
